@@ -1011,8 +1011,8 @@ class SpaceTimeVariogram:
 
         # remove NaN values
         ydata = z[np.where(~np.isnan(z))]
-        _xx = xx.flatten()[np.where(~np.isnan(z))[0]]
-        _yy = yy.flatten()[np.where(~np.isnan(z))[0]]
+        _xx = xx.T.flatten()[np.where(~np.isnan(z))[0]]
+        _yy = yy.T.flatten()[np.where(~np.isnan(z))[0]]
         xdata = np.vstack((_xx, _yy))
 
         # get the marginal variogram functions
